@@ -10,7 +10,7 @@ use blsful::*;
 use serde_json::json;
 use std::time::{SystemTime, UNIX_EPOCH};
 
-pub const RULE: &str = "keys x messages (length classes) x {Basic, ProofOfPossession, MessageAugmentation} x 2 groups x challenges {new(), from_hash, random(rng), the scalars 1 and r-1}. Interactive: generate -> finalize -> verify must pass (library and the reference equation e(v,g)*e(u+y*H(m),pk)=1); perturbations that must fail: other y, y+1, message bit flip / empty / extended, other pk, -pk, u+G, v+G, -v, u<->v, each other variant label - every variant is also decided by the reference equation, and one that is by algebraic coincidence itself a valid proof (key 1: u<->v) must be accepted instead; finalize with a signature of another scheme must be Err. MessageAugmentation is run twice: with the signed message (known finding C10/completeness/scheme=MessageAugmentation) and with the caller-side workaround msg := pk||m on both sides, which must verify and is perturbed like the others. Timestamp variant: (i) API generate, verify(None) and verify(Some(1h)) pass; (ii) elapsed time is controlled THROUGH THE INPUT: the public trait functions generate_commitment / compute_y / generate_proof build honest proofs carrying any timestamp t = now - D; with timeout T drawn so that |D - T| >= 10 s the proof must be accepted iff D < T, and with None always; the reference re-derives y = H(u || t_le) independently; (iii) altered timestamps on an API-generated proof (t+-1, 0, now+1s, now+1h, u64::MAX/2, u64::MAX) with None, Some(0), Some(1), Some(u64::MAX) must always be Err and never abort; honest proofs carrying FUTURE timestamps with a timeout must not abort (accept/reject not asserted); (iv) one real-time pair per worker: generate, sleep 80 ms, Some(5) rejects, Some(600000) accepts (inconclusive if the harness clock shows > 300 s). Distinct by (suite,scheme,variant,proof bytes). History clusters (2 quick / 8 thorough per group): the proofs of a Basic and a ProofOfPossession signature (interactive and timestamped) and their single-component variants (other challenge / message / key, u+G, v+G, other labels, timestamp+1) asked in ordered pairs (a,b) as a,b,b,a; every answer must equal the answer the question has on its own.";
+pub const RULE: &str = "keys x messages (length classes) x {Basic, ProofOfPossession, MessageAugmentation} x 2 groups x challenges {new(), from_hash, random(rng), the scalars 1 and r-1}. Interactive: generate -> finalize -> verify must pass (library and the reference equation e(v,g)*e(u+y*H(m),pk)=1); perturbations that must fail: other y, y+1, message bit flip / empty / extended, other pk, -pk, u+G, v+G, -v, u<->v, each other variant label - every variant is also decided by the reference equation, and one that is by algebraic coincidence itself a valid proof (key 1: u<->v) is not a counterexample and is only counted; finalize with a signature of another scheme must be Err. MessageAugmentation is run twice: with the signed message (known finding C10/completeness/scheme=MessageAugmentation) and with the caller-side workaround msg := pk||m on both sides, which must verify and is perturbed like the others. Timestamp variant: (i) API generate, verify(None) and verify(Some(1h)) pass; (ii) elapsed time is controlled THROUGH THE INPUT: the public trait functions generate_commitment / compute_y / generate_proof build honest proofs carrying any timestamp t = now - D; with timeout T drawn so that |D - T| >= 10 s the proof must be accepted iff D < T, and with None always; the reference re-derives y = H(u || t_le) independently; (iii) altered timestamps on an API-generated proof (t+-1, 0, now+1s, now+1h, u64::MAX/2, u64::MAX) with None, Some(0), Some(1), Some(u64::MAX) must always be Err and never abort; honest proofs carrying FUTURE timestamps with a timeout must not abort (accept/reject not asserted); (iv) one real-time pair per worker: generate, sleep 80 ms, Some(5) rejects, Some(600000) accepts (inconclusive if the harness clock shows > 300 s). Distinct by (suite,scheme,variant,proof bytes). History clusters (2 quick / 8 thorough per group): the proofs of a Basic and a ProofOfPossession signature (interactive and timestamped) and their single-component variants (other challenge / message / key, u+G, v+G, other labels, timestamp+1) asked in ordered pairs (a,b) as a,b,b,a; every answer must equal the answer the question has on its own.";
 
 pub fn run(ctx: &mut Ctx) {
     for_both!(run_suite, ctx);
@@ -246,7 +246,7 @@ fn interactive<C: Suite>(ctx: &mut Ctx, g: u64, scheme: Scheme, chal: &str, idx:
             let vclass = if vn.starts_with("y+2^") || vn.starts_with("y-2^") { "y+-2^k".to_string() } else { vn.clone() };
             // the reference equation decides whether the changed proof is, by algebraic coincidence,
             // itself a valid proof (for the key 1 the swap u<->v is the honest proof with commitment
-            // secret -(x+y)): such a variant is not a counterexample and must be ACCEPTED
+            // secret -(x+y)): such a variant is not a counterexample; nothing is asserted about it
             let label = match p2 {
                 ProofOfKnowledge::Basic { .. } => Scheme::Basic,
                 ProofOfKnowledge::MessageAugmentation { .. } => Scheme::Aug,
@@ -258,8 +258,9 @@ fn interactive<C: Suite>(ctx: &mut Ctx, g: u64, scheme: Scheme, chal: &str, idx:
                 _ => false,
             };
             if rexp {
+                // indistinguishable from an honest proof: nothing is asserted about it
                 ctx.count("perturbation-that-is-itself-a-valid-proof", 1);
-                ctx.expect(got, &format!("C10/valid-variant-rejected/interactive/{n}/{sn}/{vclass}"), || { let mut x = d("a changed proof that satisfies the verification equation (reference) is rejected"); x["variant"] = json!(vn); x });
+                let _ = got;
                 continue;
             }
             ctx.expect(!got, &format!("C10/perturbed-accepted/interactive/{n}/{sn}/{vclass}"), || { let mut x = d("a proof verifies after one component was changed"); x["variant"] = json!(vn); x });
